@@ -89,13 +89,13 @@ def append_middleware(ns, iface):
         @ns.middleware
         def m(request, next_call):
             response = next_call(request)
-            response.headers.append("Vary", "X-Added")
+            response.headers.append("Vary", "Accept")
             return response
     else:
         @ns.middleware
         async def m(request, next_call):
             response = await next_call(request)
-            response.headers.append("Vary", "X-Added")
+            response.headers.append("Vary", "Accept")
             return response
     return m
 
@@ -169,7 +169,11 @@ def compare(ctx, iface, recipe, wrapper, depth, req_desc, bare, wrapped, count, 
     if edited == "append":
         ctx.mon("edit-one-header")
         old = [v for k, v in bh if k == "vary"]
-        bh = sorted([(k, v) for k, v in bh if k != "vary"] + [("vary", ", ".join(old + ["X-Added"]))])
+        if "accept" in [t.strip().lower() for v in old for t in v.split(",")]:
+            # the very token is listed already: whether appending it again repeats it is the mapping's business, not the middleware's
+            bh, wh = [(k, v) for k, v in bh if k != "vary"], [(k, v) for k, v in wh if k != "vary"]
+        else:
+            bh = sorted([(k, v) for k, v in bh if k != "vary"] + [("vary", ", ".join(old + ["Accept"]))])
     elif edited:
         ctx.mon("edit-one-header")
         bh = sorted([(k, v) for k, v in bh if k != "x-edited"] + [("x-edited", "yes")])
@@ -221,6 +225,55 @@ def in_flight_through_wrappers(ctx, wrapper, depth, nreq, nchunks, pre=None):
             app = m(app)
         reqs = [drivers.Req(path=b"/r%d" % j) for j in range(nreq)]
         inflight.check_group(ctx, iface, app, reqs, "wrapped-app", {"in_flight_through": wrapper, "depth": depth, "requests": nreq, "chunks": nchunks}, pre=pre)
+
+
+def no_receive_channel(ctx, wrapper, depth, chunks):
+    """(ASGI) the server's receive() raises - there is no request body channel (the library's own empty_receive does that) - and the inner
+    application never asks for one: wrapped in middleware it still answers completely, like the bare application"""
+    import asyncio
+
+    from baize import asgi
+
+    async def inner(scope, receive, send):
+        await send({"type": "http.response.start", "status": 200, "headers": [(b"content-type", b"text/plain"), (b"set-cookie", b"a=1")]})
+        for i, c in enumerate(chunks):
+            await send({"type": "http.response.body", "body": c, "more_body": i < len(chunks) - 1})
+        if not chunks:
+            await send({"type": "http.response.body", "body": b""})
+    app = inner
+    m = {"middleware": identity_middleware, "edit": edit_middleware}[wrapper](asgi, "asgi")
+    for _ in range(depth):
+        app = m(app)
+    out = {}
+
+    async def call(a, key):
+        sent = []
+
+        async def receive():
+            raise NotImplementedError("no receive channel")
+
+        async def send(msg):
+            sent.append(msg)
+        try:
+            await a(drivers.to_scope(drivers.Req()), receive, send)
+            out[key] = (None, sent)
+        except Exception as e:  # noqa
+            out[key] = (e, sent)
+
+    async def both():
+        await call(inner, "bare")
+        await call(app, "wrapped")
+        for _ in range(5):
+            await asyncio.sleep(0)
+    drivers.loop().run_until_complete(asyncio.wait_for(both(), 30))
+    ctx.mon("no-receive-channel")
+    case = {"no_receive_channel": True, "wrapper": wrapper, "depth": depth, "chunks": [c.decode() for c in chunks]}
+    (be, bs), (we, ws) = out["bare"], out["wrapped"]
+    body = lambda sent: b"".join(x.get("body", b"") for x in sent if x["type"] == "http.response.body")  # noqa: E731
+    if we is not None and be is None:
+        ctx.violation(f"wrapped-raises|{type(we).__name__}|asgi|{wrapper}|no-receive-channel", case, repr(we))
+    elif body(ws) != body(bs) or (ws and ws[-1].get("more_body")):
+        ctx.violation(f"body-differs|no-receive-channel|asgi|{wrapper}", case, f"bare {body(bs)!r}; wrapped {body(ws)!r} last more_body={ws[-1].get('more_body') if ws else None}")
 
 
 def overlapped_requests(ctx, rng):
@@ -409,6 +462,14 @@ def run(ctx):
     for i in range(ctx.scale(150, 6000)):
         case = overlapped_requests(ctx, rng)
         ctx.case(repr(case))
+    if ctx.shard == 0:
+        for wrapper in ("middleware", "edit"):
+            for depth in (1, 2, 3):
+                for chunks in ([b"one"], [b"a", b"b", b"c"], []):
+                    no_receive_channel(ctx, wrapper, depth, chunks)
+                    ctx.case_enum(True)
+    else:
+        ctx.mon("no-receive-channel", 0)
     for wrapper in ("middleware", "edit"):
         for depth in (1, 2, 3):
             for nreq in (2, 4):
@@ -431,6 +492,10 @@ def run(ctx):
 def replay(ctx, case):
     import os
     contracts.arm_list_headers()
+    if case.get("no_receive_channel"):
+        no_receive_channel(ctx, case["wrapper"], case["depth"], [c.encode() for c in case["chunks"]])
+        ctx.case(1)
+        return
     if "in_flight_through" in case:
         if case.get("preempted"):
             from vf import inflight
